@@ -338,3 +338,12 @@ mod tests {
         Ok(())
     }
 }
+
+/// Peek at the process-wide settings cells without initialising them, for external runtime monitors.
+#[cfg(feature = "verif-hooks")]
+pub fn verif_peek_settings() -> (Option<usize>, Option<bool>) {
+    (
+        MAX_ALLOCATION_BYTES.get().copied(),
+        SERDE_HUMAN_READABLE.get().copied(),
+    )
+}
